@@ -64,7 +64,7 @@ func (w *c01Sess) text(i, n int, incOn bool) string {
 		if n%2 == 1 {
 			extra = "    ex:misc  1 USD\n"
 		}
-		return "account ex:food\ncommodity USD\n" + inc + "\n2024-01-15 * Shop" + zzverif.Itoa(n) + " | weekly ; trip: rome\n    ex:food  " + amt + " USD\n" + extra + "    as:cash\n"
+		return "account ex:food\ncommodity USD\n" + inc + "\n2024-01-15 * Shop" + zzverif.Itoa(n) + " | weekly ; trip: rome\n    ex:food  " + amt + " USD\n" + extra + "    as:cash\n\n2024-04-01 Garage\n"
 	case 1:
 		acct := []string{"ex:fuel", "ex:fun", "ex:fees"}[n%3]
 		extra := ""
@@ -202,8 +202,9 @@ func (w *c01Sess) askAll() {
 }
 
 // requests that are compared at the end (positions in c01Ask's round): symbols, folds,
-// tokens, tokens.range, format, hover, completion, definition, references, links, wssymbols
-var c01SessRequests = []int{0, 1, 2, 3, 4, 5, 6, 7, 8, 10, 11}
+// tokens, tokens.range, format, hover, completion, definition, references, links, wssymbols,
+// inline completion (on the empty line below the header that ends the document)
+var c01SessRequests = []int{0, 1, 2, 3, 4, 5, 6, 7, 8, 10, 11, 12}
 
 // c01RunSession: the disk, a server, main.journal open, `steps` operations; with `chatty` the
 // editor asks a round of every request after each operation.
@@ -292,7 +293,7 @@ func verifC01Session(steps int, requests []int) {
 }
 
 // quick: 2 steps, the requests that read shared state
-func VerifC01Session() { verifC01Session(2, []int{4, 5, 6, 8, 0}) }
+func VerifC01Session() { verifC01Session(2, []int{4, 5, 6, 8, 0, 12}) }
 
 // thorough: 3 steps, every request
 func VerifC01SessionLong() { verifC01Session(3, c01SessRequests) }
